@@ -29,9 +29,17 @@ def build_headers_facts(eng):
             why.append('first element is not first_frame')
             continue
         for x in el[1:]:
+            if x[0] == 'splat' and x[1][0] == 'comp':
+                x = x[1][1]     # extend(<frame> for block in ...)
             if not (x[0] == 'obj' and x[2] == 'ContinuationFrame'):
                 ok = False
                 why.append('non-CONTINUATION frame after the first')
+            else:
+                d = p.state.objs.get(x, {}).get('data')
+                if d is not None and not _bounded_block(p, d):
+                    ok = False
+                    why.append('frame data %s is not a bounded slice'
+                               % cm.show0(d)[:60])
         # data assignments
         for e in p.events:
             if e.kind == 'write' and e.attr == 'data':
@@ -47,15 +55,23 @@ def _bounded_block(p, v):
     """v is header_blocks[k] / an element of header_blocks[1:], where
     header_blocks is the comprehension of slices of width
     self.max_outbound_frame_size, or the literal [b'']."""
-    base = v
-    if base == T.C(b''):
+    if v == T.C(b''):
         return True
-    if base[0] == 'lv':
-        base = base[2]
+    if v[0] in ('lv', 'sub'):
+        # a loop variable over / an element of a sequence of blocks
+        return _bounded_seq(p, v[2] if v[0] == 'lv' else v[1])
+    return False
+
+
+def _bounded_seq(p, base):
+    """Every element of the sequence is a bounded block."""
     if base[0] == 'sub':
         base = base[1]
     if base[0] == 'slice':
-        base = base[1]
+        return _bounded_seq(p, base[1])
+    if base[0] == 'or' and isinstance(base[1], tuple):
+        # `blocks or [b'']`
+        return all(_bounded_seq(p, alt) for alt in base[1])
     if base[0] == 'obj':
         el = p.state.objs.get(base, {}).get('$elems')
         if el is None:
@@ -70,6 +86,50 @@ def _bounded_block(p, v):
     if base[0] == 'comp':
         return _bounded_slice(base[1])
     return False
+
+
+def block_comps(p):
+    """The comprehensions whose elements end up as frame data on the path."""
+    out = []
+
+    def walk(t):
+        if not isinstance(t, tuple) or not t:
+            return
+        if t[0] == 'comp':
+            if t not in out:
+                out.append(t)
+            return
+        if t[0] in ('lv',):
+            walk(t[2])
+        elif t[0] in ('sub', 'slice'):
+            walk(t[1])
+        elif t[0] == 'or' and isinstance(t[1], tuple):
+            for a in t[1]:
+                walk(a)
+    for e in p.events:
+        if e.kind == 'write' and e.attr == 'data':
+            walk(e.value)
+        elif e.kind == 'new' and e.get('cls') == 'ContinuationFrame':
+            d = p.state.objs.get(e.obj, {}).get('data')
+            if d is not None:
+                walk(d)
+    return out
+
+
+def exact_partition(comp):
+    """[X[i:i+W] for i in range(0, len(X), W)]: consecutive slices of width
+    W that cover X exactly - ceil(len(X)/W) of them, none empty."""
+    elt, it = comp[1], comp[2]
+    if elt[0] != 'slice' or elt[2] is None or elt[3] is None:
+        return False
+    x, lo, hi = elt[1], elt[2], elt[3]
+    if not (it[0] == 'call' and it[1] == 'range' and len(it[2]) == 3):
+        return False
+    a, b, c = it[2]
+    width = T.add(hi, lo, -1)
+    return a == T.C(0) and b[0] == 'call' and b[1] == 'len' and \
+        b[2] == (x,) and width is not None and c == width and \
+        lo[0] == 'lv' and lo[2] == it
 
 
 def _bounded_slice(elt):
